@@ -105,7 +105,6 @@ Section SliceOfNested.
   Variables (a b a' b' : Z).
   Let s := MatchingCost.i_s inp.
   Hypothesis Hs : 0 < s.
-  Hypothesis Hab : a <= b.
   Hypothesis Ha : a' <= a.
   Hypothesis Hb : b <= b'.
   Hypothesis HaxisJ : i_disps xJ = Interval.disp_axis s a' b'.
